@@ -213,8 +213,17 @@ func (nn *NetNode) view(hashes ...common.Hash) (*nodeView, bool) {
 		}
 	})
 	if !t.Finished {
-		nn.StateLocked = true
-		return nil, false
+		// a node task holds one of the locks across a wait that only time ends (a network write with a
+		// deadline, a timer): that is a stall, not a deadlock. Give simulated time; only a read that is still
+		// blocked two simulated minutes later counts as locked for good.
+		for i := 0; i < 120 && !t.Finished; i++ {
+			nn.Net.C.W.Sleep(time.Second)
+		}
+		if !t.Finished {
+			nn.StateLocked = true
+			return nil, false
+		}
+		nn.Net.C.Probe("state_read_stalled_by_a_timed_wait")
 	}
 	return v, true
 }
